@@ -4776,7 +4776,7 @@ class Choose(Array):
         return Choose(_take(self.index, index, axis), _take(self.choices, index, axis))
 
     def _takediag(self, axis, rmaxis):
-        return Choose(takediag(self.index, axis, rmaxis), takediag(self.choices, axis, rmaxis))
+        return Choose(_takediag(self.index, axis, rmaxis), Transpose.to_end(_takediag(self.choices, axis, rmaxis), self.ndim-2))
 
     def _product(self):
         unaligned, where = unalign(self.index)
